@@ -42,6 +42,7 @@ class Tracer:
         self.events = []
         self.builders = []
         self.muted = 0
+        self.broken = None
         self._saved = {}
 
     def snapshot(self):
@@ -61,7 +62,14 @@ class Tracer:
 
     def log(self, ev):
         if not self.muted:
-            self.events.append([ev, self.snapshot()])
+            try:
+                snap = self.snapshot()
+            except (AttributeError, TypeError) as e:
+                # the builder's private layout (_stack, StackFrame.loop, LoopGuard.measurements, Loop._measurements)
+                # is not what the instrumentation knows: no white-box comparison possible, the black-box kinds remain
+                self.broken = '%s: %s' % (type(e).__name__, e)
+                snap = []
+            self.events.append([ev, snap])
 
     def install(self):
         from qupulse.program import loop as L
@@ -156,7 +164,11 @@ def run_trace(case, build_pt, num):
         if None in pt.measurement_names:
             mm[None] = None
     T = Tracer()
-    T.install()
+    try:
+        T.install()
+    except (KeyError, AttributeError) as e:
+        T.uninstall()
+        return {'trace_unavailable': 'install: %s: %s' % (type(e).__name__, e), 'none': False}
     try:
         builder = LoopBuilder()
         T.builders.append(builder)
@@ -169,6 +181,8 @@ def run_trace(case, build_pt, num):
             return {'rejected': type(e).__name__}
     finally:
         T.uninstall()
+    if T.broken:
+        return {'trace_unavailable': T.broken, 'none': prog is None}
     return {'trace': T.events, 'none': prog is None}
 
 
